@@ -36,6 +36,8 @@ def main() -> int:
         return core.run_property(mod, args.tier)
     except SystemExit:
         raise
+    except BrokenPipeError:
+        return 1
     except BaseException:  # noqa: BLE001
         print("HARNESS-ERROR (inconclusive, not a violation):")
         traceback.print_exc()
